@@ -416,7 +416,7 @@ run_sweep(long v, void *arg)
         /* direct API + misc */
         g_ctx = "direct-api";
         ctx_reset(c);
-        for (int k = K_D_GCM; k <= K_D_SNOW3G; k++) {
+        for (int k = K_D_GCM; k <= K_D_QUIC; k++) {
                 op_t o = { k, NULL, 1, 80, 0 };
                 step(c, &o);
                 n++;
